@@ -297,6 +297,7 @@ func TestC04(t *testing.T) {
 	defer mon.Uninstall()
 	sweep(r)
 	aliasSweep(r)
+	derivedSweep(r)
 	programs(r)
 	r.Require("solve.accepted(expected)", 1000)
 	r.Require("solve.rejected(expected)", 1000)
@@ -484,6 +485,91 @@ func aliasSweep(r *vcore.Run) {
 			checkOne(r, c, nil, in, "alias")
 		})
 		r.Count("alias.programs", 1)
+	})
+}
+
+// derivedSweep: every operation applied to *derived* operands — 3·x, −x, x+5, 2·x, … — instead of
+// plain inputs.  In the sparse builder such operands are terms with a coefficient other than 1
+// (no gate is emitted for a scaling), in R1CS they are linear expressions with several terms or
+// a constant part: the operation's own coefficient arithmetic has to account for them.  The
+// inputs are exposed again after the operation.
+func derivedSweep(r *vcore.Run) {
+	type job struct {
+		op      string
+		rot     int
+		builder string
+	}
+	var jobs []job
+	for _, op := range sweepOps {
+		for rot := 0; rot < 3; rot++ {
+			for _, b := range []string{"r1cs", "scs"} {
+				jobs = append(jobs, job{op, rot, b})
+			}
+		}
+	}
+	vcore.Parallel(len(jobs), 14, func(ji int) {
+		j := jobs[ji]
+		a := arity(j.op)
+		rng := r.Rand(fmt.Sprintf("derived/%s/%d/%s", j.op, j.rot, j.builder))
+		// inputs: a variables, then the literals 3, 5, 2
+		p := &progs.Program{}
+		for i := 0; i < a; i++ {
+			p.Inputs = append(p.Inputs, progs.Kind(1+i%2))
+		}
+		lit := len(p.Inputs)
+		p.Inputs = append(p.Inputs, progs.Const, progs.Const, progs.Const)
+		p.Lits = make([]*big.Int, len(p.Inputs))
+		p.Lits[lit], p.Lits[lit+1], p.Lits[lit+2] = big.NewInt(3), big.NewInt(5), big.NewInt(2)
+		reg := len(p.Inputs)
+		var args []int
+		for i := 0; i < a; i++ {
+			switch (i + j.rot) % 4 {
+			case 0:
+				p.Instrs = append(p.Instrs, progs.Instr{Op: "Mul", Args: []int{lit, i}})
+			case 1:
+				p.Instrs = append(p.Instrs, progs.Instr{Op: "Neg", Args: []int{i}})
+			case 2:
+				p.Instrs = append(p.Instrs, progs.Instr{Op: "Add", Args: []int{i, lit + 1}})
+			case 3:
+				p.Instrs = append(p.Instrs, progs.Instr{Op: "Mul", Args: []int{i, lit + 2}})
+			}
+			args = append(args, reg)
+			reg++
+		}
+		n := 0
+		if j.op == "ToBinary" {
+			n = 6
+		}
+		ins := progs.Instr{Op: j.op, N: n, Args: args}
+		if j.op == "EvaluatePlonkExpression" {
+			ins.Q = []int{2, -3, 7, 5}
+		}
+		p.Instrs = append(p.Instrs, ins)
+		for k := 0; k < progs.NbResults(ins); k++ {
+			p.Exposed = append(p.Exposed, reg+k)
+		}
+		for i := 0; i < a; i++ {
+			p.Exposed = append(p.Exposed, i, len(p.Inputs)+i)
+		}
+		c, err := progs.Compile(p, nil, tiny, j.builder)
+		r.Count("compilations", 1)
+		if err != nil {
+			r.Count("derived.compile-refused", 1)
+			return
+		}
+		budget := r.Pick(2209, 103823)
+		if a > 3 {
+			budget = r.Pick(1500, 20000)
+		}
+		tuples(rng, a, budget, func(t []int) {
+			in := make([]*big.Int, len(p.Inputs))
+			for i := 0; i < a; i++ {
+				in[i] = big.NewInt(int64(t[i]))
+			}
+			p.FillLits(in, tiny)
+			checkOne(r, c, nil, in, "derived")
+		})
+		r.Count("derived.programs", 1)
 	})
 }
 
